@@ -63,6 +63,10 @@ const STEPS: &[(&str, &str)] = &[
     ("{ { while :; do :; done; } & kill -s STOP $!; kill -s KILL $!; wait $!; echo st=$?; } | cat", "stopped-child-killed-holding-pipe"),
     ("trap - TERM; { while :; do :; done; } & kill -s STOP $!; kill -s CONT $!; kill -s TERM $!; wait $!; echo st=$?", "stop-cont-term"),
     ("trap - TERM; { while :; do :; done; } & kill -s STOP $!; kill -s TERM $!; kill -s CONT $!; wait $!; echo st=$?", "term-while-stopped-then-cont"),
+    // a signal that stays pending in the parent while it forks again is not the child's
+    ("trap 'echo T' USR1; echo \"$(kill -s USR1 $$)\" \"$(echo alive)\"", "signal-pending-across-fork"),
+    ("trap 'echo T' USR1; x=$(kill -s USR1 $$)$(exit 7); echo $?", "signal-pending-across-fork"),
+    ("trap 'echo T' USR1; echo \"$(kill -s USR1 $$; echo one)\" | cat; (echo sub); echo done", "signal-pending-across-fork"),
     // symbolic links (fixture: l -> e, ld -> d, dangling -> nowhere)
     ("cat <l", "symlink-read"),
     ("echo S >l; cat <e", "symlink-write"),
